@@ -144,6 +144,13 @@ def call(ex, st, name, args, kwargs, node):
         data = ex.narrow(st, args[1]) if len(args) > 1 else S.mk_bytes(b"")
         yield st, Const("hashobj", (ex.narrow(st, args[0]), data))
         return
+    if name == "zlib.decompressobj":
+        # opaque decompression object; only raw inflate (wbits == -15) and its .decompress are modelled
+        w = z3.simplify(ex.as_int(ex.narrow(st, args[0]))) if args else None
+        if w is None or not z3.is_int_value(w) or w.as_long() != -15:
+            raise _U("zlib.decompressobj with wbits other than -15")
+        yield st, Const("inflateobj", -15)
+        return
     c = eng.contracts.get_external(name, ex.fr.behavior)
     if c is not None:
         from . import callcontract
